@@ -242,6 +242,58 @@ example :
     read st.1 st.2.exons = [⟨1, 0, 10, 1⟩, ⟨1, 20, 10, 2⟩] := by decide
 
 
+/-! ## Gene.SetFeatures -/
+
+/-- **Rejected `SetFeatures`** (a feature located elsewhere, no feature starting at 0): the
+    gene's length and features are exactly as before. -/
+theorem rejected_setFeatures_unchanged (gid : Nat) (g g' : GeneSt) (feats : List FeatIv) (e : Err)
+    (hrej : setFeatures gid g feats = (g', some e)) : g' = g := by
+  unfold setFeatures at hrej
+  split at hrej
+  · cases hrej; rfl
+  · split at hrej
+    · cases hrej; rfl
+    · cases hrej
+
+/-- An accepted `SetFeatures` stores the given features; all are located on the gene and lie
+    within `[0, Len)` … `Len` being the largest end; one of them starts at 0 (the analogue for
+    genes of "one exon starts at 0 and the last one ends at the transcript's end"). -/
+theorem accepted_setFeatures (gid : Nat) (g g' : GeneSt) (feats : List FeatIv)
+    (hacc : setFeatures gid g feats = (g', none)) :
+    g'.feats = feats ∧ (∀ f ∈ feats, f.loc = gid ∧ 0 ≤ f.start ∧ f.stop ≤ g'.length) ∧
+      (∃ f ∈ feats, f.start = 0) ∧ 0 ≤ g'.length ∧
+      (g'.length = 0 ∨ ∃ f ∈ feats, f.stop = g'.length) := by
+  unfold setFeatures at hacc
+  split at hacc
+  · cases hacc
+  · rename_i pos e hscan
+    split at hacc
+    · cases hacc
+    · rename_i hpos
+      have hpos : pos = 0 := by simpa using hpos
+      simp only [Prod.mk.injEq, and_true] at hacc
+      subst hacc
+      subst hpos
+      obtain ⟨h1, _, h3, h4, h5⟩ := scanFeats_ok gid feats maxInt 0 0 e hscan
+      refine ⟨rfl, ?_, ?_, ?_, ?_⟩
+      · intro f hf
+        have := h1 f hf
+        exact ⟨this.1, this.2.1, by simp only [Int.sub_zero]; exact this.2.2⟩
+      · rcases h4 with h4 | h4
+        · exact absurd h4 (by decide)
+        · exact h4
+      · simp only [Int.sub_zero]; exact h3
+      · simp only [Int.sub_zero]
+        rcases h5 with h5 | h5
+        · exact Or.inl h5
+        · exact Or.inr h5
+
+-- non-vacuity
+example : (setFeatures 1 ⟨0, []⟩ [⟨1, 5, 20, 1⟩, ⟨1, 0, 10, 2⟩]).2 = none ∧
+    (setFeatures 1 ⟨0, []⟩ [⟨1, 5, 20, 1⟩, ⟨1, 0, 10, 2⟩]).1.length = 20 ∧
+    (setFeatures 1 ⟨7, []⟩ [⟨1, 5, 20, 1⟩]).2 = some .noZeroFeat ∧
+    (setFeatures 1 ⟨7, []⟩ [⟨2, 0, 20, 1⟩]).2 = some .featLoc := by decide
+
 /-! ## Nested positions compose additively -/
 
 /-- `BasePositionOf` in closed form: on a chain of at most 1000 features (the documented
